@@ -40,6 +40,9 @@ def reference(ctx, scn, ev, max_steps=None, observe=None):
     """Runs the canonical schedule.  Returns Ref (ref.started False if the tool
     refused the input before the first prompt)."""
     ref = Ref()
+    if scn.get("argv_style") is not None:
+        scn = dict(scn)
+        scn.pop("argv_style")          # the reference gets the plain spelling of the command line
     if observe is None:
         observe = scn.get("observe", True)
     if max_steps is None:
